@@ -575,20 +575,19 @@ fn factored_code_delta(prev_offset: u32, offset: u32, factor: u8) -> Result<u32>
     }
     let delta = offset - prev_offset;
     let factor = u32::from(factor);
-    let factored_delta = delta / factor;
-    if delta != factored_delta * factor {
-        return Err(Error::InvalidFrameCodeOffset(offset));
+    match delta.checked_div(factor) {
+        Some(factored_delta) if delta == factored_delta * factor => Ok(factored_delta),
+        _ => Err(Error::InvalidFrameCodeOffset(offset)),
     }
-    Ok(factored_delta)
 }
 
 fn factored_data_offset(offset: i32, factor: i8) -> Result<i32> {
     let factor = i32::from(factor);
-    let factored_offset = offset / factor;
-    if offset != factored_offset * factor {
-        return Err(Error::InvalidFrameDataOffset(offset));
+    // This also handles a factor of 0, and the overflow of `i32::MIN / -1`.
+    match offset.checked_div(factor) {
+        Some(factored_offset) if offset == factored_offset * factor => Ok(factored_offset),
+        _ => Err(Error::InvalidFrameDataOffset(offset)),
     }
-    Ok(factored_offset)
 }
 
 #[cfg(feature = "read")]
